@@ -232,7 +232,7 @@ def run(prop, tier, seed, replay=None):
             e["id"] = len(events)
             events.append(e)
     lines = [json.dumps(e) for e in events]
-    verdicts, st, tr = vf.judge_events(work, "Trace_Decode.tla", "Trace_Decode.cfg", lines, chunk=1500)
+    verdicts, st, tr = vf.judge_events(work, "Trace_Decode.tla", "Trace_Decode.cfg", lines, chunk=600, timeout=2400)
     rep.add_states(st, tr)
     with open(work / "verdicts.ndjson", "w") as f:
         for v in verdicts:
